@@ -46,7 +46,7 @@ CLAIMS = {
         note="Which endings count as protocol endings (QUIT, 464, KILL/DIE, timeout, bad text, over-long line, connection limit) is fixed by the model's step function and compared with the real server trace by trace; tokio task aborts outside handler code are outside the model."),
     "C02": dict(
         technique="Coq proof (ownership clauses of the global invariant; frame theorem for the nick->connection map under a step of another connection; inertness of unregistered connections) + contention traces and an ownership oracle on the real server",
-        text="Theorems (props/C02.v): in every reachable world each registered nick is owned by exactly one live connection, registered under exactly that nick, and every registered connection "
+        text="CAN MODIFY ONLY THE USER IT REGISTERED ITSELF, over every event of every connection i (C02_cannot_modify_others; record frame proved through all 41 commands, registration, teardown and KILL delivery): every user record that does not belong to i and exists afterwards existed before under the same nick with the same owner, host, user name, real name, source prefix, user modes, away text and WHOWAS data - a foreign command reaches only its membership set (KICK), pending invitations (INVITE) and KILL mark. Theorems (props/C02.v): in every reachable world each registered nick is owned by exactly one live connection, registered under exactly that nick, and every registered connection "
              "owns the user under its nick (C02_one_owner, C02_connection_owns); whatever connection i sends and however it ends, no OTHER connection gains, loses or changes a nick - except "
              "that its user disappears when that connection itself is closed by the step (KILL/DIE) (C02_acts_only_as_itself); a connection that is not registered - refused with 433, 464 or a "
              "mask mismatch, or never completed - leaves the ENTIRE shared state identical whatever it sends and however it ends; the only other outcome is its own accepted registration "
